@@ -576,7 +576,8 @@ impl Prop for History {
                 if cx.tier != Tier::Miri && cx.rng.chance(1, 4) {
                     // a crowded store first: more records share a gram than the candidate cap of a small limit
                     let words = ["metal", "mettle", "medal", "mailbox", "me", "meter"];
-                    for _ in 0..cx.rng.range(12, 40) {
+                    let bulk = if cx.rng.chance(1, 10) { cx.rng.range(100, 600) } else { cx.rng.range(12, 40) };
+                    for _ in 0..bulk {
                         ops.push(Op::Add(format!("{} {}", cx.rng.pick(&words), cx.rng.pick(&words)), cx.rng.below(5)));
                     }
                     ops.push(Op::Limit(*cx.rng.pick(&[0, 1, 1, 2])));
